@@ -93,3 +93,47 @@ pub fn callback(renderer: &SharedRenderer, frames: usize, channels: u16) -> Vec<
 	r.process(&mut out, channels);
 	out
 }
+
+/// a sound that outputs silence for ever and runs a hook in `on_start_processing`: inside its track's
+/// `on_start_processing`, AFTER the track's sounds were drained and BEFORE its sub-tracks are
+pub struct HookSound(pub Hook);
+impl Sound for HookSound {
+	fn on_start_processing(&mut self) {
+		let h = self.0.lock().unwrap().take();
+		if let Some(h) = h {
+			h();
+		}
+	}
+	fn process(&mut self, out: &mut [Frame], _dt: f64, _info: &Info) {
+		out.fill(Frame::ZERO);
+	}
+	fn finished(&self) -> bool {
+		false
+	}
+}
+impl SoundData for HookSound {
+	type Error = ();
+	type Handle = ();
+	fn into_sound(self) -> Result<(Box<dyn Sound>, ()), ()> {
+		Ok((Box::new(self), ()))
+	}
+}
+
+/// a constant source that counts the frames it was asked for
+pub struct CountingDc(pub f32, pub Arc<std::sync::atomic::AtomicUsize>);
+impl Sound for CountingDc {
+	fn process(&mut self, out: &mut [Frame], _dt: f64, _info: &Info) {
+		self.1.fetch_add(out.len(), std::sync::atomic::Ordering::SeqCst);
+		out.fill(Frame::from_mono(self.0));
+	}
+	fn finished(&self) -> bool {
+		false
+	}
+}
+impl SoundData for CountingDc {
+	type Error = ();
+	type Handle = ();
+	fn into_sound(self) -> Result<(Box<dyn Sound>, ()), ()> {
+		Ok((Box::new(self), ()))
+	}
+}
